@@ -214,11 +214,14 @@ func c10Run(rc *sim.RunCtx) {
 			return
 		}
 		compared++
-		if (got.innerErr != "") != (want.innerErr != "") {
-			// one side met a runtime error while folding a constant expression (an optimizer error wrapping it) and
-			// refused to compile; the other did not fold that expression and met the error at run time, if at all -
-			// where it ends the run or is caught by an enclosing try. How far the optimizer gets depends on its
-			// budget, which a session refills for every fragment: nothing about this fragment is comparable.
+		if got.innerErr != "" && want.innerErr == "" {
+			// the session met a runtime error while folding a constant expression (an optimizer error wrapping it) and
+			// refused to compile; the batch side did not fold that expression and met the error at run time, if at
+			// all - where it ends the run or is caught by an enclosing try. How far the optimizer gets depends on its
+			// budget, which a session refills for every fragment while the batch compilation has one budget for
+			// everything: the session may fold what the batch run no longer can. Nothing about this fragment is
+			// comparable then. (The other direction - the batch side folds what the session does not - is compared:
+			// a fragment's fresh budget is never smaller than what the batch compilation had left at that point.)
 			rc.Probe("fragment-failed:optimizer-vs-runtime")
 			break
 		}
@@ -295,7 +298,7 @@ func init() {
 			if tier == "thorough" {
 				return 2000000
 			}
-			return 30000
+			return 100000
 		},
 		WallCap: func(tier string) float64 {
 			if tier == "thorough" {
